@@ -23,6 +23,7 @@ FAMILY_RULES = {
     "casts": ["cast_cast_rule", "no_op_cast_rule", "cast_constant_of_shape_rule", "cast_constant_of_shape_without_value_rule"],
     "slices": ["collapse_slice_rule", "collapse_slice2_rule", "slice_split_rule"],
     "dropout": ["dropout_inference_rule", "dropout_zero_rule"],
+    "dropout_runtime": ["dropout_inference_rule", "dropout_zero_rule"],
     "expand": ["no_op_expand_rule", "expand_before_binary_op_rules"],
     "reshape_family": ["flatten_to_reshape_rule", "reshape_reshape_rule", "squeeze_reshape_1d_rule", "transpose_transpose_rule",
                        "no_op_transpose_rule", "unsqueeze_unsqueeze_rule", "materialize_reshape_shape_rule"],
